@@ -182,8 +182,13 @@ class Interp:
     def step(self, what):
         self.steps += 1
         if self.fault_at is not None:
-            if self.eng.fork(self.fault_at.e == self.steps):
-                self.eng.event('fault', at=self.steps, what=what)
+            kinds = getattr(self, 'fault_kinds', None)
+            if kinds is not None and ':' not in what and what not in kinds:
+                return
+            occ = self.step_occ = getattr(self, 'step_occ', {})
+            occ[what] = occ.get(what, 0) + 1
+            if self.steps <= getattr(self, 'fault_max', 10 ** 9) and self.eng.fork_free(self.fault_at.e == self.steps):
+                self.eng.event('fault', at=self.steps, what=what, occurrence=occ[what])
                 raise PyExc(InjectedFault(f'injected fault at step {self.steps} ({what})'))
 
     # ---- calls
@@ -426,7 +431,8 @@ class Frame:
     def exec(s, st):
         T = type(st)
         try:
-            s.it.step(f'{s.fn.__qualname__}:{getattr(st, "lineno", 0)}')
+            if not (T is ast.Expr and isinstance(st.value, ast.Constant)) and T not in (ast.Pass, ast.Global, ast.Nonlocal):
+                s.it.step(f'{s.fn.__qualname__}:{getattr(st, "lineno", 0)}')
             if T is ast.Expr:
                 s.ev(st.value)
             elif T is ast.Assign:
